@@ -60,10 +60,10 @@ package ship
 //@ func (c *ShipConnection).setState(newState, err) [C04,C01]
 //@   requires [C04] E1-edge: edge(c.role, c.smeState, newState)
 //@   requires [C04] E2-final: terminal(c.smeState) ==> terminal(newState)
-//@   requires [C01] G1-gate: postTrust(newState) && !postTrust(c.smeState) ==> newState == model.SmeHelloStateReadyInit && ($Trusted[c.remoteSKI] || $AutoAccept || c.role == ShipRoleClient)
+//@   requires [C01] G1-gate: postTrust(newState) && !postTrust(c.smeState) ==> newState == model.SmeHelloStateReadyInit && ($Trusted[norm(c.remoteSKI)] || $AutoAccept || c.role == ShipRoleClient)
 //@   ensures c.smeState == newState
 //@   ensures c.handshakeTimerRunning == runAfter(newState, old(c.handshakeTimerRunning))
-//@   modifies c.smeState, c.smeError, c.handshakeTimerRunning, c.handshakeTimerType, $Trusted[c.remoteSKI]
+//@   modifies c.smeState, c.smeError, c.handshakeTimerRunning, c.handshakeTimerType, $Trusted[norm(c.remoteSKI)]
 
 //@ func (c *ShipConnection).setHandshakeTimer(timerType, duration)
 //@   ensures c.handshakeTimerRunning && c.handshakeTimerType == timerType
@@ -73,8 +73,8 @@ package ship
 //@   modifies c.handshakeTimerRunning
 
 // ---- everything a handshake step may touch ----
-//@ modset hs(c) := $decoded, c.smeState, c.smeError, c.handshakeTimerRunning, c.handshakeTimerType, c.lastReceivedWaitingValue, c.remoteShipID, c.dataReader, c.spineBuffer, c.shutdownOnce.$done, $Trusted[c.remoteSKI], c.$reports, c.$setup, $idReports[c.remoteSKI], $lastId[c.remoteSKI], c.$closeCalled, c.$closeScheduled, c.$everApproved, c.dataWriter.$wsClosed, c.dataWriter.$writes
-//@ modset er(c) := @cl(c), c.smeState, c.smeError, c.handshakeTimerType, $Trusted[c.remoteSKI]
+//@ modset hs(c) := $decoded, c.smeState, c.smeError, c.handshakeTimerRunning, c.handshakeTimerType, c.lastReceivedWaitingValue, c.remoteShipID, c.dataReader, c.spineBuffer, c.shutdownOnce.$done, $Trusted[norm(c.remoteSKI)], c.$reports, c.$setup, $idReports[c.remoteSKI], $lastId[c.remoteSKI], c.$closeCalled, c.$closeScheduled, c.$everApproved, c.dataWriter.$wsClosed, c.dataWriter.$writes
+//@ modset er(c) := @cl(c), c.smeState, c.smeError, c.handshakeTimerType, $Trusted[norm(c.remoteSKI)]
 //@ modset cl(c) := c.handshakeTimerRunning, c.shutdownOnce.$done, c.$reports, c.$closeCalled, c.$closeScheduled, c.dataWriter.$wsClosed, c.dataWriter.$writes
 
 // object invariant: the state is one the role can reach from INIT_START along diagram edges
@@ -176,7 +176,7 @@ package ship
 //@   requires roleOK(c.role, c.smeState)
 //@   requires [C04] E1-edge: edge(c.role, c.smeState, state)
 //@   requires [C04] E2-final: terminal(c.smeState) ==> terminal(state)
-//@   requires [C01] G1-gate: postTrust(state) && !postTrust(c.smeState) ==> state == model.SmeHelloStateReadyInit && ($Trusted[c.remoteSKI] || $AutoAccept || c.role == ShipRoleClient)
+//@   requires [C01] G1-gate: postTrust(state) && !postTrust(c.smeState) ==> state == model.SmeHelloStateReadyInit && ($Trusted[norm(c.remoteSKI)] || $AutoAccept || c.role == ShipRoleClient)
 //@   requires state != model.SmeStateError && state != model.SmeHelloStateRejected && state != model.SmeStateComplete
 //@   requires tinv(state, runAfter(state, c.handshakeTimerRunning), c.shutdownOnce.$done) && @READER(c) && (c.shutdownOnce.$done ==> closing(state))
 //@   ensures [C04] E3-step: stepOK(c.role, state, c.smeState)
@@ -430,7 +430,7 @@ package ship
 //@   ensures [C04] E4-timer: @TINV(c)
 //@   ensures [C04] E6-closed: @CLOSEOK(c)
 //@   ensures @DMODE(c)
-//@   modifies c.dataReader, c.$setup, c.spineBuffer, c.smeState, c.smeError, c.handshakeTimerRunning, c.handshakeTimerType, $Trusted[c.remoteSKI]
+//@   modifies c.dataReader, c.$setup, c.spineBuffer, c.smeState, c.smeError, c.handshakeTimerRunning, c.handshakeTimerType, $Trusted[norm(c.remoteSKI)]
 //@ func (c *ShipConnection).processBufferedSpineMessages() [C01]
 //@   requires c.dataReader != nil && c.smeState == model.SmeStateComplete
 //@   atcall HandleShipPayloadMessage [C01] G4-deliver: c.smeState == model.SmeStateComplete
@@ -444,7 +444,7 @@ package ship
 //@   requires !c.shutdownOnce.$done
 //@   modifies @hs(c)
 //@ func (c *ShipConnection).ApprovePendingHandshake() entry [C04,C01]
-//@   requires [C01] G0-approved: $Trusted[c.remoteSKI]
+//@   requires [C01] G0-approved: $Trusted[norm(c.remoteSKI)]
 //@   requires !c.shutdownOnce.$done
 //@   ensures [C04] E3-step: stepOK(c.role, old(c.smeState), c.smeState)
 //@   modifies @hs(c)
